@@ -6,13 +6,13 @@ CONSTANTS
   HWFallback = FALSE
   ElectAlive = TRUE
   ElectDown = FALSE
-  MaxMsgs = 5
+  MaxMsgs = 6
   MaxElect = 3
   MaxCrash = 3
   MaxIsrOps = 3
   MaxRejects = 1
   Policies = {"ALL", "LEADER", "NONE"}
   UseCheckpoint = TRUE
-  Batch = 1
+  Batch = 2
   IgnoreTaints = TRUE
 CHECK_DEADLOCK FALSE
